@@ -99,6 +99,13 @@ def cases(ctx):
             yield {'kind': 'r2n', 'r': gen.random_regexp(rng, rng.randint(2, 10), Sg)}
         else:
             gen.random_regexp(rng, rng.randint(2, 10), Sg)
+    for i in range(60 if not thorough else 600):     # same operands under different operators / in exchanged order, side by side
+        x = gen.random_regexp(rng, rng.randint(0, 2), ['a', 'b'])
+        y = gen.random_regexp(rng, rng.randint(0, 2), ['a', 'b'])
+        z = gen.random_regexp(rng, 1, ['a', 'b', 'c'])
+        r = rng.choice([['sum', ['sum', x, y], ['cat', x, y]], ['sum', ['cat', x, ['star', y]], ['sum', x, ['star', y]]],
+                        ['star', ['sum', ['cat', ['sum', x, y], z], ['cat', ['cat', x, y], z]]], ['sum', ['cat', x, y], ['cat', y, x]]])
+        yield {'kind': 'r2n', 'r': r}
     for n, Sg in ((1, ['a']), (2, ['a']), (2, ['a', 'b']), (1, ['0', '1']), (2, ['1'])):
         for s in gen.exhaustive_dfas(n, Sg):
             yield {'kind': 'd2r', 'D': s}
